@@ -902,7 +902,7 @@ mod n {
                     .collect();
             }
             let tmp = std::env::var("VERIF_TMP").map(PathBuf::from).unwrap_or_else(|_| std::env::temp_dir());
-            let tmp_path = tmp.join(format!("verif-c18-values-{}-{}.tbl", std::process::id(), k));
+            let tmp_path = tmp.join(format!("verif-c18-values-{}-{}-{}.tbl", std::process::id(), k, variant));
             let path: &PathBuf = if distinct && k >= n_kyg {
                 std::fs::write(&tmp_path, text.chars().map(|ch| ch as u32 as u8).collect::<Vec<u8>>()).unwrap();
                 &tmp_path
@@ -983,7 +983,9 @@ mod n {
                 c.nontrivial(name.clone());
                 c.sample(|| format!("{}: {} elements, {} spaces", name, d.elements.len(), d.spaces.len()));
             }
-            let _ = std::fs::remove_file(&tmp_path);
+            if distinct && k >= n_kyg {
+                let _ = std::fs::remove_file(&tmp_path);
+            }
         });
     }
 }
